@@ -43,6 +43,9 @@ func GenWindow(seed uint64, variant int, pool *Pool) *Plan {
 	s := &p.Swarm
 	s.Observers = 1
 	s.Patches = append([]string{}, allActions...)
+	if rs := core.NewRNG(seed ^ uint64(variant)*0x9e37).Stream("soak"); rs.Chance(1, 40) {
+		s.Soak = 1050 + rs.Intn(700)
+	}
 	kind := windowKinds[variant%3]
 	fi := (variant / 3) % windowFroms
 	ui := (variant / (3 * windowFroms)) % windowUntils
@@ -158,7 +161,7 @@ func init() {
 			return seqCases(master, n, func(int) int { return WindowVariants })
 		},
 		Gen:            func(c Case, pool *Pool) *Plan { return GenWindow(c.Seed, c.Variant, pool) },
-		RequiredProbes: map[string][]string{"quick": {"window_t_eq_from", "window_t_eq_until", "window_t_eq_from_plus_delta", "window_int64_extreme"}, "thorough": {"window_t_eq_from", "window_t_eq_until", "window_t_eq_from_plus_delta", "window_int64_extreme"}},
+		RequiredProbes: map[string][]string{"quick": {"window_t_eq_from", "window_t_eq_until", "window_t_eq_from_plus_delta", "window_int64_extreme", "soak"}, "thorough": {"window_t_eq_from", "window_t_eq_until", "window_t_eq_from_plus_delta", "window_int64_extreme"}},
 		Components:     worldComponents,
 		Assumptions:    worldAssumptions,
 	})
